@@ -1,4 +1,5 @@
 import MqttVerif.Framing.Lemmas
+import MqttVerif.Conn.Lemmas.PbFrame
 /-!
 # C09 — stream framing is independent of how the byte stream is chunked
 
@@ -217,3 +218,200 @@ example : feedChunks PB.reset [[0x30, 0x02], [0x41], [0x42, 0xC0, 0x00]]
     = (PB.reset, [.complete 0x30 [0x41, 0x42], .complete 0xC0 []]) := by decide
 
 end MqttVerif.Framing
+
+
+/-! ## C09 at connection level: `recv` frames exactly like the byte-step specification
+
+The driver (`connLine`) runs a ghost assembler `gpb` next to every traced connection: it is reset
+by `closed`, advanced by `Framing.feedSpec gpb inp` on every `recv inp`, and untouched by every
+other call; the frame and the number of consumed bytes the implementation reports must be those
+of `feedSpec` (`VIOL sig=C09 conn_framing@<site>`).  Below: the same holds for the model's
+`Conn.recv`, for **every** state whose assembler satisfies the builder invariant `Framing.Inv`
+(in the payload state at least one byte is expected — `C09_conn_inv_step`: kept by every call,
+true initially), every input and every parser. -/
+namespace MqttVerif.Conn
+open MqttVerif
+
+theorem stepByte_out_reset' (pb : Framing.PB) (b : Nat) :
+    (Framing.stepByte pb b).2 = none ∨ (Framing.stepByte pb b).1 = Framing.PB.reset := by
+  unfold Framing.stepByte
+  (repeat' (first | split | (simp only []; split))) <;> simp
+
+theorem stepByte_out_reset (pb : Framing.PB) (b : Nat) (h : (Framing.stepByte pb b).2 ≠ none) :
+    (Framing.stepByte pb b).1 = Framing.PB.reset :=
+  (stepByte_out_reset' pb b).resolve_left h
+
+/-- once the specification reports a result, the assembler is back in its initial state -/
+theorem feedSpec_out_reset (pb : Framing.PB) (inp : List Nat)
+    (h : (Framing.feedSpec pb inp).2.1 ≠ none) : (Framing.feedSpec pb inp).1 = Framing.PB.reset := by
+  induction inp generalizing pb with
+  | nil => simp [Framing.feedSpec] at h
+  | cons b rest ih =>
+    simp only [Framing.feedSpec] at h ⊢
+    have hr := stepByte_out_reset pb b
+    cases hs : Framing.stepByte pb b with
+    | mk pb' o =>
+      rw [hs] at h hr
+      cases o with
+      | none => exact ih pb' h
+      | some o => exact hr (by simp)
+
+/-- the driver's ghost assembler -/
+def C09.ghostPb (gpb : Framing.PB) : Op → Framing.PB
+  | .closed => {}
+  | .recv inp _ => (Framing.feedSpec gpb inp).1
+  | _ => gpb
+
+/-- what the connection does with the result of one `feed`: nothing (incomplete), a framing
+    error (timers cancelled, close requested, `MalformedPacket` reported), or the packet handler
+    on the completed frame -/
+def C09.afterFeed (cfg : Cfg) (s : St) (parse : Nat → Nat → List Nat → Except Nat Pkt)
+    (pb : Framing.PB) : Option Framing.Out → C
+  | none => { cfg := cfg, s := { s with pb := pb } }
+  | some .error => ((cancelTimers { cfg := cfg, s := { s with pb := pb } }).push .close).err eMalformed
+  | some (.complete fh d) =>
+    processRecvPacket { cfg := cfg, s := { s with pb := pb } } fh d (fun v => parse v fh d)
+
+/-- **C09 conn_framing** (driver monitor `VIOL sig=C09 conn_framing@<site>`).  For every state
+    (assembler invariant), every receive buffer and every parser: the unread rest `recv` returns —
+    hence the number of bytes it consumed, `inp.length - rest.length` — and the frame it hands to the
+    packet handler are those of the byte-at-a-time specification `Framing.feedSpec` run on the same
+    bytes from the same assembler state:
+    * the consumed bytes are a prefix of the input;
+    * no result (`none`): no event, nothing but `pb` changes;
+    * `.error` (Remaining Length longer than four bytes): error event `MalformedPacket` after a close
+      request, and the assembler is reset;
+    * `.complete fh d`: the call *is* the packet handler run on `(fh, d)` (assembler reset). -/
+theorem C09_conn_framing (cfg : Cfg) (s : St) (inp : List Nat)
+    (parse : Nat → Nat → List Nat → Except Nat Pkt) (h : Framing.Inv s.pb) :
+    (recv { cfg := cfg, s := s } inp parse).2 = (Framing.feedSpec s.pb inp).2.2 ∧
+    (∃ consumed, inp = consumed ++ (Framing.feedSpec s.pb inp).2.2 ∧
+      consumed.length = inp.length - (recv { cfg := cfg, s := s } inp parse).2.length) ∧
+    step cfg s (.recv inp parse) =
+      C09.afterFeed cfg s parse (Framing.feedSpec s.pb inp).1 (Framing.feedSpec s.pb inp).2.1 ∧
+    ((Framing.feedSpec s.pb inp).2.1 ≠ none → (Framing.feedSpec s.pb inp).1 = Framing.PB.reset) := by
+  have hf := Framing.feed_eq_spec s.pb inp h
+  obtain ⟨pre, hpre⟩ := (Framing.feedSpec_props s.pb inp h).2.1
+  have hrecv : recv { cfg := cfg, s := s } inp parse =
+      (C09.afterFeed cfg s parse (Framing.feedSpec s.pb inp).1 (Framing.feedSpec s.pb inp).2.1,
+        (Framing.feedSpec s.pb inp).2.2) := by
+    unfold recv
+    rw [hf]
+    obtain ⟨pb, out, rest⟩ := Framing.feedSpec s.pb inp
+    simp only []
+    cases out with
+    | none => rfl
+    | some o => cases o <;> rfl
+  refine ⟨by rw [hrecv], ⟨pre, hpre, ?_⟩, ?_, feedSpec_out_reset _ _⟩
+  · rw [hrecv]
+    have := congrArg List.length hpre
+    simp only [List.length_append] at this
+    dsimp only
+    omega
+  · show (recv { cfg := cfg, s := s } inp parse).1 = _
+    rw [hrecv]
+
+/-- the three cases of `C09_conn_framing`, spelt out on the events -/
+theorem C09_conn_framing_events (cfg : Cfg) (s : St) (inp : List Nat)
+    (parse : Nat → Nat → List Nat → Except Nat Pkt) (h : Framing.Inv s.pb) :
+    ((Framing.feedSpec s.pb inp).2.1 = none →
+      (step cfg s (.recv inp parse)).ev = [] ∧
+      (step cfg s (.recv inp parse)).s = { s with pb := (Framing.feedSpec s.pb inp).1 }) ∧
+    ((Framing.feedSpec s.pb inp).2.1 = some .error →
+      (∃ cancels, (step cfg s (.recv inp parse)).ev = cancels ++ [.close, .error eMalformed]) ∧
+      (step cfg s (.recv inp parse)).s.pb = Framing.PB.reset) ∧
+    (∀ fh d, (Framing.feedSpec s.pb inp).2.1 = some (.complete fh d) →
+      step cfg s (.recv inp parse) =
+        processRecvPacket { cfg := cfg, s := { s with pb := Framing.PB.reset } } fh d (fun v => parse v fh d)) := by
+  obtain ⟨_, _, hs, hr⟩ := C09_conn_framing cfg s inp parse h
+  refine ⟨fun e => ?_, fun e => ?_, fun fh d e => ?_⟩
+  · rw [hs, e]; exact ⟨rfl, rfl⟩
+  · have hr' := hr (by rw [e]; simp)
+    rw [hs, e, hr']
+    refine ⟨⟨(cancelTimers { cfg := cfg, s := { s with pb := Framing.PB.reset } }).ev, ?_⟩, ?_⟩
+    · simp [C09.afterFeed, C.err, C.push]
+    · simp [C09.afterFeed]
+  · have hr' := hr (by rw [e]; simp)
+    rw [hs, e, hr']; rfl
+
+/-- **the ghost assembler is the model's assembler**: after every call the model's `pb` is the
+    driver's ghost update of it (`closed` resets — fix of finding #1 —, `recv` advances by
+    `feedSpec`, nothing else touches it), and the builder invariant is kept -/
+theorem C09_conn_inv_step (cfg : Cfg) (s : St) (op : Op) (h : Framing.Inv s.pb) :
+    (step cfg s op).s.pb = C09.ghostPb s.pb op ∧ Framing.Inv (step cfg s op).s.pb := by
+  have key : (step cfg s op).s.pb = C09.ghostPb s.pb op := by
+    cases op with
+    | send p => exact PbF.pb_send _ p
+    | recv inp parse =>
+      rw [(C09_conn_framing cfg s inp parse h).2.2.1]
+      show _ = (Framing.feedSpec s.pb inp).1
+      cases ho : (Framing.feedSpec s.pb inp).2.1 with
+      | none => rfl
+      | some o => cases o <;> simp [C09.afterFeed]
+    | timer k => exact PbF.pb_notifyTimerFired _ k
+    | closed => exact PbF.pb_notifyClosed _
+    | setInterval d => exact PbF.pb_setPingreqSendInterval _ d
+    | setFlag f b => cases f <;> rfl
+    | setRespTimeout ms => rfl
+    | acquire => rfl
+    | register id => rfl
+    | release id => exact PbF.pb_releaseIfUsed _ id
+    | erase id => exact PbF.pb_eraseStoredPublish _ id
+    | restoreHandled ids => rfl
+    | restorePackets ps => exact PbF.pb_restorePackets ps _
+  refine ⟨key, ?_⟩
+  rw [key]
+  cases op <;> first | exact h | exact Framing.inv_reset | exact (Framing.feedSpec_props s.pb _ h).1
+
+/-- the driver's ghost along a whole trace -/
+def C09.ghostRun (gpb : Framing.PB) : List Op → Framing.PB
+  | [] => gpb
+  | op :: ops => C09.ghostRun (C09.ghostPb gpb op) ops
+
+/-- run level: from any state with a sound assembler — in particular a fresh connection object
+    (`C09_conn_reachable`) — the model's assembler follows the ghost through every sequence of calls -/
+theorem C09_conn_inv_run (cfg : Cfg) (ops : List Op) (s : St) (h : Framing.Inv s.pb) :
+    (run cfg s ops).pb = C09.ghostRun s.pb ops ∧ Framing.Inv (run cfg s ops).pb := by
+  induction ops generalizing s with
+  | nil => exact ⟨rfl, h⟩
+  | cons op ops ih =>
+    obtain ⟨h1, h2⟩ := C09_conn_inv_step cfg s op h
+    have := ih (step cfg s op).s h2
+    simp only [run, C09.ghostRun]
+    rw [← h1]; exact this
+
+theorem C09_conn_reachable (cfg : Cfg) (ver : Nat) (ops : List Op) :
+    (run cfg (St.init cfg ver) ops).pb = C09.ghostRun {} ops ∧
+    Framing.Inv (run cfg (St.init cfg ver) ops).pb :=
+  C09_conn_inv_run cfg ops (St.init cfg ver) Framing.inv_reset
+
+/-! ### non-vacuity -/
+namespace C09Ex
+def cfg : Cfg := { role := .client, pw := 2 }
+def pingresp : Pkt := { ver := 4, kind := .pingresp, size := 2 }
+def parse : Nat → Nat → List Nat → Except Nat Pkt := fun _ _ _ => .ok pingresp
+def s0 : St := { St.init cfg 4 with status := .connected }
+/-- a PUBLISH frame split over two buffers with a PINGRESP behind it: the first call consumes
+    everything without a result, the second completes the frame and leaves the PINGRESP unread -/
+example : Framing.feedSpec s0.pb [0x30, 3, 0] = (⟨.payload, [0x30, 3], 2, 128, [0]⟩, none, []) := by decide
+def s1 : St := (step cfg s0 (.recv [0x30, 3, 0] parse)).s
+example : Framing.Inv s1.pb ∧ (step cfg s0 (.recv [0x30, 3, 0] parse)).ev = [] := by
+  refine ⟨(C09_conn_inv_step cfg s0 _ Framing.inv_reset).2, by decide⟩
+example : Framing.feedSpec s1.pb [1, 97, 0xD0, 0] = (Framing.PB.reset, some (.complete 0x30 [0, 1, 97]), [0xD0, 0]) ∧
+    (recv { cfg := cfg, s := s1 } [1, 97, 0xD0, 0] parse).2 = [0xD0, 0] := by decide
+/-- a fifth length byte: error event after a close request, assembler reset, two bytes left unread -/
+example : (step cfg s0 (.recv [0x30, 128, 128, 128, 128, 7, 7] parse)).ev = [.close, .error eMalformed] ∧
+    (recv { cfg := cfg, s := s0 } [0x30, 128, 128, 128, 128, 7, 7] parse).2 = [7, 7] ∧
+    (step cfg s0 (.recv [0x30, 128, 128, 128, 128, 7, 7] parse)).s.pb = Framing.PB.reset := by decide
+/-- `Framing.Inv` is needed: in a (unreachable) payload state that expects 0 bytes the Rust loop
+    returns `Incomplete` without consuming anything; the specification consumes the byte -/
+def pbBad : Framing.PB := ⟨.payload, [0x30, 0], 0, 128, []⟩
+example : ¬ Framing.Inv pbBad ∧ (Framing.feed pbBad [7]).2.1 = none ∧ (Framing.feed pbBad [7]).2.2 = [7] ∧
+    (Framing.feedSpec pbBad [7]).2.2 = [] :=
+  ⟨fun h => absurd (h rfl) (by decide), by decide⟩
+/-- the ghost along a trace: `closed` discards the half-received frame -/
+example : C09.ghostRun {} [.recv [0x30, 3, 0] parse, .closed, .recv [0xD0] parse] = ⟨.remLen, [0xD0], 0, 1, []⟩ := by
+  decide
+end C09Ex
+
+end MqttVerif.Conn
